@@ -320,6 +320,14 @@ class StoreWorld:
                     op['alg'], op['target'] = full, k[1]
                 if ch.flip('op.load_same_run', 1, 2):
                     op['run'] = k[0]
+            if kind == 'update' and self.model.prime and ch.flip('op.update_known', 1, 3):
+                # store again where something is stored already: the primary entry is overwritten in place
+                keys = sorted((k for k in self.model.prime if k[5] != '__metric__'), key=repr)
+                if keys:
+                    k = keys[ch.choose('op.update_key', len(keys))]
+                    if f'{k[2]}.{k[3]}' in self.spec.by:
+                        a = self.spec.by[f'{k[2]}.{k[3]}']
+                        op['alg'], op['target'], op['run'] = a.full, k[1], k[0]
             if kind == 'update':
                 op['contents'] = {}
                 op['labels'] = {}
@@ -447,6 +455,11 @@ class StoreWorld:
         if name != want:
             self.violate('C07', 'novelty_names', 'differ', f'bot was told {name}, stored {want}')
         self.judge_novelty(it, isnew)
+        if it.key in self.model.prime:
+            # the primary entry is overwritten in place (dbm.dumb rewrites the value without touching its directory)
+            self.probes['overwrite_existing_entry'] += 1
+            if self.imager is not None:
+                self.probes['overwrite_existing_entry_under_crash_enumeration'] += 1
         self.model.ack(it)
         self.acks_log(it, isnew)
         self.op(f'   ack {it.brief()} new={bool(isnew)}')
@@ -585,7 +598,7 @@ class StoreWorld:
 
         r = dawgie.db.add(op['target'])
         if r is not True:
-            self.violate('C08', 'add_failed', 'client', f'add({op["target"]}) through the client path returned {r!r}')
+            self.probes['add_returned_not_true'] += 1  # not a clause of any property: observed only
 
     def c_crecord(self, cl, op):
         import dawgie.pl.version as version
@@ -599,8 +612,9 @@ class StoreWorld:
         import dawgie.db
 
         got = dawgie.db.targets()
+        self.probes['targets_listed_by_client'] += 1
         if len(set(got)) != len(got):
-            self.violate('C08', 'targets_repeated', 'client', f'targets() through the client path: {got}')
+            self.probes['targets_repeated'] += 1  # observed only; the table bijection is judged by check_catalogue
 
     # -- phases ----------------------------------------------------------------
     def phase(self, ops=None, mix=None, max_clients=None, msv=True):
@@ -658,7 +672,7 @@ class StoreWorld:
             self.op(f'pipeline-side exception: {u}')
             self.probes['pipeline_exception'] += 1
             if not self.faulty_history():
-                self.violate(self.cfg['prop'], 'pipeline_exception', str(u[3])[:40],
+                self.violate(self.cfg['prop'], 'pipeline_exception', str(u[3]).split('(')[0][:40],
                              f'exception in the pipeline process in a history without faults: {u}')
 
     # -- faults -----------------------------------------------------------------
@@ -929,7 +943,11 @@ class StoreWorld:
         cands = [a for a in self.spec.algs if a.pkg == task]
         if not cands:
             return
-        aspec = cands[ch.choose('bt.rs_alg', len(cands))]
+        own = [a for a in cands if a.name == r['alg']]
+        if own and ch.flip('bt.rs_other', 1, 3) is False:
+            aspec = own[0]  # usually the algorithm that really has entries in that run
+        else:
+            aspec = cands[ch.choose('bt.rs_alg', len(cands))]
         _bot, alg, _t = self.make(aspec, run, target)
         before = (tuple(alg._get_ver()), {sv.name(): tuple(sv._get_ver()) for sv in alg.state_vectors()})
         mine = [x for x in rows if (x['run'], x['target'], x['task'], x['alg']) == (run, target, task, aspec.name)]
@@ -1168,7 +1186,7 @@ class PipelineActor:
         r = dawgie.db.add(t)
         w.op(f'pl: add target {t}')
         if r is not True:
-            w.violate('C08', 'add_failed', 'pipeline', f'add({t}) returned {r!r}')
+            w.probes['add_returned_not_true'] += 1
         w.check_catalogue('add')
 
     def a_record(self):
@@ -1195,19 +1213,21 @@ class PipelineActor:
     def a_versions(self):
         import dawgie.db
 
+        # versions() is not one of the operations the statement of C08 names: it is exercised (it walks the same
+        # parent chain) and only observed
         w = self.w
         try:
             _t, av, _sv, _vv = dawgie.db.versions()
         except Exception as e:  # noqa
-            w.violate('C08', 'versions_raised', type(e).__name__, f'versions() raised {e!r}', fatal=False)
+            w.probes['versions_raised'] += 1
+            w.op(f'pl: versions() raised {e!r}')
             return
         cat = w.catalogue()
         for key in av:
             task, alg = key.split('.')
             known = {sm.vstr(v) for v, _i in cat.alg_versions(task, alg)}
             if not set(av[key]) <= known:
-                w.violate('C08', 'versions_not_exact', 'alg', f'versions() reports {key}: {sorted(set(av[key]))}, registered under exactly '
-                          f'that name: {sorted(known)}', fatal=False)
+                w.probes['versions_reports_other_names'] += 1
         w.probes['versions'] += 1
 
     def a_trace(self):
